@@ -22,6 +22,9 @@ extern "C"
 
 using namespace kit;
 typedef std::vector<uint8_t> Bytes;
+// C04_gateway.cpp: the same library seen from a translation unit that includes the two gstuff headers in the other order
+extern "C" void c04_gateway_default_context(unsigned char out[6]);
+extern "C" int c04_gateway_roundtrip(const char *payload, int n, char *frame, int *framelen, char *delivered);
 
 namespace
 {
@@ -212,7 +215,15 @@ namespace
         }
         Status put(uint8_t c) override
         {
-            switch (gstuff_autorecv_newchar_v1(&r, (char)c))
+            // the byte is handed over by an expression with a side effect (*p++, a call that pops a queue): evaluated exactly once
+            char one[2] = {(char)c, (char)~c};
+            const char *p = one;
+            int pops = 0;
+            auto pop = [&]() -> char { pops++; return (char)c; };
+            int sts = form % 2 ? gstuff_autorecv_newchar_v1(&r, *p++) : gstuff_autorecv_newchar_v1(&r, pop());
+            if (form % 2 ? p != one + 1 : pops != 1)
+                violate("C04/argument-evaluated-again", "gstuff_autorecv_newchar_v1(&r, expr) evaluated its byte argument %d times", form % 2 ? (int)(p - one) : pops);
+            switch (sts)
             {
             case GSTUFF_CONTINUE_V1: return ST_CONT;
             case GSTUFF_NEWPACKAGE_V1: return ST_NEWPKG;
@@ -339,6 +350,19 @@ namespace
         case ENC_IOVEC:
         {
             std::unique_ptr<char[]> out(new char[maxout]);
+            if (n == 0 && cuts.size() % 2 == 1)
+            {
+                // the empty message as a scatter list of zero pieces ("send the first k pieces" with k == 0): the array behind the
+                // pointer is not part of the message (an entry that describes other bytes, or no array at all)
+                static char other[5] = {'O', 'T', 'H', 'E', 'R'};
+                struct iovec not_ours;
+                not_ours.iov_base = other;
+                not_ours.iov_len = sizeof other;
+                probe("scatter_list_of_zero_pieces");
+                int len0 = gstuffing_v(cuts.size() % 4 == 1 ? &not_ours : (struct iovec *)nullptr, 0, out.get(), ctx);
+                if (len0 < 0 || (size_t)len0 > maxout) violate("C04/frame-too-long", "encoder returned %d for a scatter list of zero pieces", len0);
+                return Bytes((uint8_t *)out.get(), (uint8_t *)out.get() + len0);
+            }
             int len = gstuffing_v(iov.data(), iov.size(), out.get(), ctx);
             if (len < 0 || (size_t)len > maxout) violate("C04/frame-too-long", "encoder returned %d for n=%zu", len, n);
             return Bytes((uint8_t *)out.get(), (uint8_t *)out.get() + len);
@@ -399,7 +423,17 @@ namespace
             if (how == 2) return gstuffing(igris::buffer(std::string_view(in.get(), n)), ctx);
             return gstuffing(igris::buffer(in.get(), n), ctx);
         }
-        default: return gstuffing_v(iov.data(), iov.size(), ctx);
+        default:
+            if (n == 0 && cuts.size() % 2 == 1)
+            {
+                static char other[5] = {'O', 'T', 'H', 'E', 'R'};
+                struct iovec not_ours;
+                not_ours.iov_base = other;
+                not_ours.iov_len = sizeof other;
+                probe("scatter_list_of_zero_pieces");
+                return gstuffing_v(cuts.size() % 4 == 1 ? &not_ours : (struct iovec *)nullptr, 0, ctx);
+            }
+            return gstuffing_v(iov.data(), iov.size(), ctx);
         }
     }
 
@@ -838,6 +872,23 @@ namespace
             {
                 ~HabitsGuard() { g_owner = OwnerHabits(); }
             } habits_guard;
+            if (variant == VAR_CFG_V1)
+            {
+                // the default alphabet is the same in every translation unit, whatever else that unit includes and in which order
+                unsigned char dc[6];
+                c04_gateway_default_context(dc);
+                const Alphabet &d = ALPHA_V1;
+                if (dc[0] != d.START || dc[1] != d.STOP || dc[2] != d.STUB || dc[3] != d.C_START || dc[4] != d.C_STOP || dc[5] != d.C_STUB)
+                    violate(faults ? "C05/default-alphabet" : "C04/default-alphabet", "a translation unit that includes the legacy header before gstuff.h gets the default context %02x %02x %02x %02x %02x %02x, the default alphabet is a8 b2 c5 8a 2b 5c", dc[0], dc[1], dc[2], dc[3], dc[4], dc[5]);
+                char pl[20], fr[64], got[80];
+                int n0 = (int)mod(p.c(4, 0), 20), fl = 0;
+                for (int i = 0; i < n0; i++) pl[i] = (char)(i % 3 == 0 ? d.START : i % 3 == 1 ? d.STUB : 'a' + i);
+                int dn = c04_gateway_roundtrip(pl, n0, fr, &fl, got);
+                Bytes want = ref_encode(d, Bytes((uint8_t *)pl, (uint8_t *)pl + n0));
+                if (dn != n0 || memcmp(got, pl, (size_t)n0) != 0 || Bytes((uint8_t *)fr, (uint8_t *)fr + fl) != want)
+                    violate(faults ? "C05/default-alphabet" : "C04/default-alphabet", "encode + decode with the default context in the gateway translation unit: %d of %d bytes delivered, frame %s, reference %s", dn, n0, hex(Bytes((uint8_t *)fr, (uint8_t *)fr + fl)).c_str(), hex(want).c_str());
+                probe("second_translation_unit_with_the_other_include_order");
+            }
             g_owner.form = (int)mod(p.c(5, 0), 6);
             g_owner.relocate_every = (int)mod(p.c(6, 0), 24);
             g_owner.relocate_how = (int)mod(p.c(7, 0), 2);
